@@ -17,7 +17,7 @@ Failing cases are classified against the open findings F14b..F14k by region pred
 computed from the document.
 """
 import json, math
-import os
+import os, re
 from lib import coqrun
 from lib.coqrun import coq_str, coq_list, coq_bool, coq_Z, coq_opt
 
@@ -139,7 +139,11 @@ def gen_schema(r, depth, pool, deep=False):
         return ('obj', [(k, gen_schema(r, depth - 1, pool, deep)) for k in pick_keys(r, r.choice([0, 1, 2, 3]), pool)], nullable)
     if t < 0.9:
         return ('arr_obj', [(k, gen_schema(r, depth - 1, pool, deep)) for k in pick_keys(r, r.choice([1, 2, 3]), pool)], nullable)
-    return ('arr', gen_schema(r, 0, pool), nullable)
+    if t < 0.95:
+        return ('arr', gen_schema(r, 0, pool), nullable)
+    # a list directly inside a list (anonymous Data<N> models / nested scalar lists)
+    return ('arr_arr', gen_schema(r, min(depth - 1, 1), pool, deep) if r.random() < 0.6 else
+            ('arr_obj', [(k, gen_schema(r, 0, pool)) for k in pick_keys(r, r.choice([1, 2]), pool)], False), nullable)
 
 
 def inst_schema(r, s, top=False):
@@ -151,7 +155,29 @@ def inst_schema(r, s, top=False):
         return {k: inst_schema(r, sub) for k, sub in s[1]}
     if s[0] == 'arr_obj':
         return [{k: inst_schema(r, sub) for k, sub in s[1]} for _ in range(r.choice([0, 1, 2, 2, 3]))]
+    if s[0] == 'arr_arr':
+        return [inst_schema(r, s[1], top=True) if s[1][0] in ('arr_obj', 'arr') else [inst_schema(r, s[1])]
+                for _ in range(r.choice([1, 1, 1, 2]))]
     return [inst_schema(r, s[1]) for _ in range(r.choice([0, 1, 2, 3]))]
+
+
+def nested_list_docs():
+    """anonymous models: objects inside a list inside a list, under one, two or three sibling keys, at one or two
+    extra list levels, with different key sets per key; each gets its own Data<N> class"""
+    inner = [{'x': 1}, {'y': 's'}, {'z': None, 'w': 1.5}]
+    docs = []
+    for n in (1, 2, 3):
+        ks = ['a', 'b', 'items'][:n]
+        docs.append({k: [[inner[i]]] for i, k in enumerate(ks)})
+        docs.append({k: [[[inner[i]]]] for i, k in enumerate(ks)})
+        docs.append({k: [[inner[i], dict(inner[i])]] for i, k in enumerate(ks)})
+        docs.append({'p': {k: [[inner[i]]] for i, k in enumerate(ks)}, 'q': [[{'v': 1}]]})
+        docs.append([{k: [[inner[i]]] for i, k in enumerate(ks)}])
+        docs.append({k: ([[inner[i]]] if i else [{'u': 1}]) for i, k in enumerate(ks)})
+        docs.append({k: [1, [inner[i]]] for i, k in enumerate(ks)})
+    docs.append([[{'x': 1}], 5])
+    docs.append({'a': [[1, 2], [3]], 'b': [[{'y': 1}]], 'c': [['s']]})
+    return docs
 
 
 def gen_tame(r):
@@ -268,10 +294,11 @@ def depth_of(v):
 
 def gen_docs(ctx):
     r = ctx.sub_rng('docs')
-    n = 420 if ctx.tier == 'quick' else 3200
+    n = 300 if ctx.tier == 'quick' else 3200
     docs = [(d, 'fixed') for d in FIXED_DOCS]
     docs += [(d, 'scalar_root') for d in SCALAR_ROOTS]
     docs += [(d, 'null_placement') for d in null_placement_docs()]
+    docs += [(d, 'nested_lists') for d in nested_list_docs()]
     # every plural key as a list-of-objects key, twice per process in different surroundings
     for i, k in enumerate(KEYS_PLURAL):
         docs.append(({k: [{'id': 1, 'title': 't'}, {'id': 2, 'title': 'u'}]}, 'plural'))
@@ -559,7 +586,8 @@ def replay_witness(ctx, w):
 
 def cli_predicate(case, res):
     """Direct predicate of the CLI clause. None if it holds."""
-    if case['valid']:
+    valid = case['valid'] if case['valid'] is not None else res.get('ref') == 'doc'
+    if valid:
         if res['rc'] != 0:
             return 'valid document: exit code %r' % res['rc']
         if not res.get('out_equals_inprocess'):
@@ -575,6 +603,43 @@ def cli_predicate(case, res):
 
 
 # ---------------------------------------------------------------- CLI cases
+def input_zoo():
+    """(label, bytes) - every class of malformed input around a well-formed document, plus look-alikes that strict
+    JSON accepts.  What is invalid is decided by an independent reference (stdlib strict json.loads + root clause)
+    evaluated on the text the command reads, never by this list."""
+    Z = []
+
+    def add(label, t):
+        Z.append((label, t if isinstance(t, bytes) else t.encode('utf-8')))
+    for name, ch in [('tab', '\t'), ('lf', '\n'), ('cr', '\r'), ('x01', '\x01'), ('x1f', '\x1f'), ('nul', '\x00'), ('del', '\x7f'), ('ff', '\x0c')]:
+        add('ctrl-%s-in-value' % name, '{"a": "x%sy"}' % ch)
+        add('ctrl-%s-in-key' % name, '{"a%sb": 1}' % ch)
+        add('ctrl-%s-deep' % name, '[{"a": [{"b": "p%sq"}]}]' % ch)
+    add('ctrl-between-tokens', '{\t"a":\n1\r}')                      # whitespace outside strings: fine
+    for label, t in [
+            ('trailing-comma-obj', '{"a": 1,}'), ('trailing-comma-arr', '[1, 2,]'), ('leading-comma', '[,1]'), ('double-comma', '[1,,2]'),
+            ('single-quotes', "{'a': 1}"), ('single-quoted-value', '{"a": \'x\'}'), ('unquoted-key', '{a: 1}'), ('missing-colon', '{"a" 1}'),
+            ('missing-comma', '[1 2]'), ('nan', '{"a": NaN}'), ('infinity', '[Infinity, -Infinity]'), ('line-comment', '{"a": 1} // c'),
+            ('block-comment', '{/* c */ "a": 1}'), ('hash-comment', '# c\n{"a": 1}'), ('two-values', '{} {}'), ('two-arrays', '[1][2]'),
+            ('trailing-garbage', '{"a": 1} x'), ('truncated-obj', '{"a": '), ('truncated-arr', '[1, '), ('truncated-string', '{"a": "x'),
+            ('extra-close', '{"a": 1}}'), ('empty', ''), ('whitespace-only', '  \n '), ('leading-zero', '[01]'), ('hex-number', '[0x10]'),
+            ('plus-number', '[+1]'), ('dot-number', '[.5]'), ('trailing-dot', '[1.]'), ('bad-escape', '{"a": "\\x41"}'),
+            ('short-unicode-escape', '{"a": "\\u12"}'), ('lone-surrogate-escape', '{"a": "\\ud800"}'), ('escaped-ctrl', '{"a": "x\\ty\\n"}'),
+            ('python-literals', '{"a": True, "b": None}'), ('bare-word', 'nope'), ('unescaped-quote', '{"a": "x"y"}'),
+            ('duplicate-keys', '{"a": 1, "a": "x"}'), ('nbsp-whitespace', '{"a":\u00a01}'), ('ok-unicode', '{"k\u00e9": "\u540d"}'),
+            ('only-open', '{'), ('only-close', ']'), ('colon-array', '[1: 2]'), ('nested-unclosed', '{"a": [1, {"b": 2}'),
+            ('huge-exponent', '[1e999]'), ('minus-only', '[-]'), ('key-not-string', '{1: 2}')]:
+        add(label, t)
+    add('utf8-bom', b'\xef\xbb\xbf{"a": 1}')
+    add('utf16-le-bom', '{"a": 1}'.encode('utf-16'))
+    add('utf16-be', '{"a": 1}'.encode('utf-16-be'))
+    add('utf32', '{"a": 1}'.encode('utf-32'))
+    add('latin1-high-bytes', b'{"a": "caf\xe9"}')
+    add('invalid-utf8-in-key', b'{"a\xff": 1}')
+    add('overlong-utf8', b'{"a": "\xc0\xaf"}')
+    return Z
+
+
 def cli_cases(ctx, docs):
     r = ctx.sub_rng('cli')
     cases = []
@@ -591,10 +656,12 @@ def cli_cases(ctx, docs):
     good = [d for d, kind in docs if kind in ('tame', 'fixed') and isinstance(d, (dict, list))]
     for d in r.sample(good, min(k + 1, len(good))):
         cases.append({'input_kind': 'doc', 'text': json.dumps(d), 'valid': True})
+    for label, b in input_zoo():     # validity decided by the reference classification the runner reports
+        cases.append({'input_kind': 'zoo:' + label, 'text': None, 'bytes_hex': b.hex(), 'valid': None})
     for c in cases:
         c['fs'], c['ex'] = r.random() < 0.5, r.random() < 0.5
         c['existing'] = r.choice(['# precious\nX = 1\n', 'old content', 'é\n' * 3, ''])
-        c['out_exists'] = r.random() < 0.85 or not c['valid']
+        c['out_exists'] = r.random() < 0.85 or not c['valid']      # invalid / undecided: always an existing output
     return cases
 
 
@@ -699,7 +766,14 @@ def run(ctx):
             ctx.violation('generation is not deterministic / depends on earlier runs: text hash %s vs %s for %s (fs=%s ex=%s)'
                           % (h1, h2, json.dumps(d)[:200], fs, ex), dict(replay_obj, kind='order'))
         regs = regions_of(d, fs, O)
-        if res['gen'] == 'ok' and name_collision(res['decls']):
+        # F14g (class-name collision) is decided on the names the MODEL derives from the document, so that a change
+        # which makes the generator produce new collisions is not explained away by its own output
+        if model is not None:
+            mnames = [bytes.fromhex(x).decode('utf-8', 'replace')
+                      for x in re.findall(r'(?:^|;)([0-9a-f]*)[RC]\(', model[c['i'] * 2 + (1 if fs else 0)].split('|')[0])]
+            if len(set(mnames)) != len(mnames) or any(n in RESERVED for n in mnames):
+                regs.add('F14g')
+        elif res['gen'] == 'ok' and name_collision(res['decls']):
             regs.add('F14g')
         if bad is not None:
             explained = [f for f in sorted(regs & EXPLAINS[bad[0]]) if ctx.is_open_region(f)]
@@ -781,19 +855,33 @@ def run(ctx):
         ra = results[cases.index(a)]
         ctx.hist('overlapping_generators', 'first_text_same' if ra.get('sha') == ha else 'first_text_differs')
 
+    # ---- raw input texts in-process: whatever strict JSON (+ root clause) rejects, the generator must reject
+    zoo = input_zoo()
+    raw_cases = [{'bytes_hex': b.hex(), 'fs': fs, 'ex': ex} for _, b in zoo for fs, ex in ((False, False), (True, True))]
+    for (label, b), rc_ in zip([z for z in zoo for _ in (0, 1)], ctx.impl('c19', {'raw': raw_cases})['raw']):
+        ctx.count(1, key='raw|' + label + b.hex(), nontrivial=True)
+        ctx.hist('raw_input', '%s/%s' % (rc_['ref'], 'accepted' if rc_['gen'] == 'ok' else 'rejected'))
+        if rc_['ref'] != 'doc' and rc_['gen'] == 'ok':
+            ctx.violation('input that is not a JSON object/array document (%s, reference: %s) is accepted by the generator: %r'
+                          % (label, rc_['ref'], b[:60]), {'kind': 'raw', 'label': label, 'bytes_hex': b.hex()})
+
     # ---- CLI
     ccases = cli_cases(ctx, docs)
     cres = ctx.impl('c19_cli', {'cases': ccases})['cases']
     cli_exprs = []
     for c, res in zip(ccases, cres):
         ctx.count(1, key='cli|' + json.dumps(c, sort_keys=True), nontrivial=True)
-        ctx.hist('cli_input', c['input_kind'])
+        ctx.hist('cli_input', c['input_kind'].split(':')[0])
         bad = cli_predicate(c, res)
         # F14a (output truncated on invalid input) is FIXED in /repo: no region, every failure is reported
         if bad is not None:
             ctx.violation('CLI: %s (input kind %s)' % (bad, c['input_kind']), {'kind': 'cli', 'case': c})
         before = coq_opt(coq_str(c['existing'])) if c['out_exists'] else 'None'
-        inp = '(InDoc %s)' % coq_str(res.get('inprocess_code') or '') if c['valid'] else CLI_MODEL_INPUT[c['input_kind']]
+        if c['valid'] is None:
+            ctx.hist('zoo_reference', res.get('ref'))
+            inp = {'syntax': 'InSyntaxError', 'scalar': 'InScalarRoot'}.get(res.get('ref')) or '(InDoc %s)' % coq_str(res.get('inprocess_code') or '')
+        else:
+            inp = '(InDoc %s)' % coq_str(res.get('inprocess_code') or '') if c['valid'] else CLI_MODEL_INPUT[c['input_kind']]
         cli_exprs.append('show_cli %s %s' % (inp, before))
     if model is not None:
         try:
@@ -815,6 +903,11 @@ def run(ctx):
 def replay(ctx, obj):
     if obj.get('kind') == 'cli':
         return replay_witness(ctx, obj)
+    if obj.get('kind') == 'raw':
+        res = ctx.impl('c19', {'raw': [{'bytes_hex': obj['bytes_hex']}]})['raw'][0]
+        print('input %r: reference says %s, generator %s' % (bytes.fromhex(obj['bytes_hex'])[:80], res['ref'],
+                                                          'accepts it' if res['gen'] == 'ok' else 'raises %s' % res['gen']['err']))
+        return not (res['ref'] != 'doc' and res['gen'] == 'ok')
     if obj.get('kind') == 'history':
         c = {'doc': obj['doc'], 'fs': obj['fs'], 'ex': obj['ex']}
         hist = obj.get('history', [])
